@@ -267,6 +267,10 @@ def run(tier):
                             break
                 elif cfgname == "step_into":
                     st["step_runs"] += 1
+                    if len(stop_lines) >= 3000:
+                        # the runner stops stepping after max_stops stops and lets the program finish: nothing can be said about later markers
+                        rep.inconc("step-into: stop budget (3000) exhausted before the end of the program", cid)
+                        continue
                     # every marker execution appears once, in order, in the stop log (module-level ones may appear twice: known)
                     it = iter(stop_lines)
                     ok = True
